@@ -25,7 +25,7 @@ impl<Octs: AsRef<[u8]>> fmt::Display for DigPrinter<'_, Octs> {
             f,
             ";; ->>HEADER<<- opcode: {}, rcode: {}, id: {}",
             header.opcode().display_zonefile(DisplayKind::Simple),
-            header.rcode(),
+            msg.opt_rcode(),
             header.id()
         )?;
         write!(f, ";; flags: {}", header.flags())?;
